@@ -167,6 +167,21 @@ func c08Run(c *core.Ctx) {
 			c08One(c, cs)
 		}
 	}
+	// blanks inside a heredoc / nowdoc opener (between `<<<` and the label or its quote): every opener form, every body form
+	for _, op := range [][2]string{{"<<<", "A"}, {"<<<", "\"A\""}, {"<<<", "'A'"}, {"b<<<", "A"}, {"b<<<", "'A'"}, {"B<<<", "\"A\""}} {
+		for _, bl := range []string{" ", "\t", " \t "} {
+			for _, body := range []string{"x", "$x", "{$y}", "${z}", "a $x[0] b $y->c", "\\$x", "x\n  $x\n", "{$a[\"k\"]}"} {
+				for _, v := range []string{"7.4", "7.2", "5.6"} {
+					if !c.Next() {
+						continue
+					}
+					cs := mkCase("<?php $a = "+op[0]+bl+op[1]+"\n"+body+"\nA;\n$b;", parseVer(v), "special trivia=\"blank inside a heredoc or nowdoc opener\"")
+					cs.Base = []byte("<?php $a = " + op[0] + op[1] + "\n" + body + "\nA;\n$b;")
+					c08One(c, cs)
+				}
+			}
+		}
+	}
 }
 
 // {baseline, variant, what changed}
